@@ -7,7 +7,7 @@ import operator as _op
 from .absint import (Aff, AffCmp, RegexV, MatchV, V, Const, Sym, Err, TypeV, Atom, Top, Builtin, ModuleV, Func, ClassV, ListV, DictV, Obj, Bound,
                      GenV, Exc, Splice, Raised, Unmodelled, TAG_TYPES, TAG_EXACT, NUMERIC, EXC_BASES, k)
 
-BUILTIN_NAMES = set(['globals', 'locals', 'vars', 'isinstance', 'len', 'abs', 'all', 'any', 'sum', 'min', 'max', 'sorted', 'range', 'zip', 'enumerate',
+BUILTIN_NAMES = set(['map', 'filter', 'globals', 'locals', 'vars', 'isinstance', 'len', 'abs', 'all', 'any', 'sum', 'min', 'max', 'sorted', 'range', 'zip', 'enumerate',
                      'getattr', 'hasattr', 'setattr', 'iter', 'next', 'print', 'round', 'ord', 'chr', 'repr', 'reversed',
                      'map', 'filter', 'divmod', 'pow', 'callable', 'id', 'hash', 'hex', 'bin', 'oct', 'issubclass', 'super',
                      'format'])
@@ -57,6 +57,29 @@ def is_unknown(v):
 # ---------------------------------------------------------------------------------------------------
 # isinstance / type
 
+ABSTRACT_CLASSES = {
+    'Sequence': ['list', 'tuple', 'str', 'range', 'bytes'],
+    'MutableSequence': ['list'],
+    'Iterable': ['list', 'tuple', 'str', 'range', 'bytes', 'dict', 'set', 'frozenset', 'generator'],
+    'Collection': ['list', 'tuple', 'str', 'range', 'bytes', 'dict', 'set', 'frozenset'],
+    'Sized': ['list', 'tuple', 'str', 'range', 'bytes', 'dict', 'set', 'frozenset'],
+    'Container': ['list', 'tuple', 'str', 'range', 'bytes', 'dict', 'set', 'frozenset'],
+    'Reversible': ['list', 'tuple', 'str', 'range', 'bytes', 'dict'],
+    'Iterator': ['generator'],
+    'Generator': ['generator'],
+    'Mapping': ['dict'],
+    'MutableMapping': ['dict'],
+    'Set': ['set', 'frozenset'],
+    'MutableSet': ['set'],
+    'Callable': ['function'],
+    'Number': ['int', 'float', 'complex', 'bool'],
+    'Complex': ['int', 'float', 'complex', 'bool'],
+    'Real': ['int', 'float', 'bool'],
+    'Rational': ['int', 'bool'],
+    'Integral': ['int', 'bool'],
+}
+
+
 def type_names_of(interp, tv):
     """Set of type names denoted by a type expression value (TypeV / ClassV / tuple of them)."""
     if isinstance(tv, TypeV):
@@ -64,7 +87,10 @@ def type_names_of(interp, tv):
     if isinstance(tv, ClassV):
         return set([tv.name])
     if isinstance(tv, Builtin):
-        return set([tv.name.split('.')[-1] if tv.name.split('.')[-1] in EXC_BASES else tv.name])
+        short = tv.name.split('.')[-1]
+        if tv.name.split('.')[0] in ('collections', 'typing', 'numbers') and short in ABSTRACT_CLASSES:
+            return set(ABSTRACT_CLASSES[short])       # the concrete classes (among the modelled ones) the abstract class accepts
+        return set([short if short in EXC_BASES else tv.name])
     if isinstance(tv, ListV):
         out = set()
         for i in tv.items:
@@ -463,6 +489,17 @@ def arith(interp, name, a, b):
         except (OverflowError, ValueError):
             raise Raised(Exc('OverflowError'))
     ka, kb = kind_of(a), kind_of(b)
+    # sets of fully known members
+    if isinstance(a, ListV) and isinstance(b, ListV) and a.kind == 'set' and b.kind == 'set' and name in ('sub', 'or', 'and', 'xor', 'bitor', 'bitand', 'bitxor') \
+            and not a.has_splice() and not b.has_splice() and all(is_concrete(i) for i in a.items + b.items):
+        ka_, kb_ = [k(i) for i in a.items], [k(i) for i in b.items]
+        if name == 'sub':
+            return ListV([i for i in a.items if k(i) not in kb_], 'set')
+        if name in ('and', 'bitand'):
+            return ListV([i for i in a.items if k(i) in kb_], 'set')
+        if name in ('or', 'bitor'):
+            return ListV(list(a.items) + [i for i in b.items if k(i) not in ka_], 'set')
+        return ListV([i for i in a.items if k(i) not in kb_] + [i for i in b.items if k(i) not in ka_], 'set')
     # sequences
     if name == 'add' and isinstance(a, ListV) and isinstance(b, ListV) and a.kind == b.kind:
         return ListV(a.items + b.items, a.kind)
@@ -734,6 +771,14 @@ def value_attr(interp, base, attr):
         return Top('exception attribute', ignorance=False)
     if tag == 'timedelta' and attr in ('days', 'seconds'):
         return Atom(attr, [base], 'int')
+    if tag in ('datetime', 'date') and attr in ('tzinfo', 'fold'):
+        return Atom(attr, [base], None)         # None or a tzinfo object: undetermined for a parsed text
+    if tag in ('datetime', 'date', 'str', 'int', 'float', 'complex', 'num', 'bool', 'list', 'tuple', 'dict'):
+        import datetime as _dt
+        host = {'datetime': (_dt.datetime,), 'date': (_dt.date,), 'str': (str,), 'int': (int,), 'float': (float,), 'complex': (complex,),
+                'num': (int, float), 'bool': (bool,), 'list': (list,), 'tuple': (tuple,), 'dict': (dict,)}[tag]
+        if any(hasattr(h_, attr) for h_ in host):
+            raise Unmodelled('%s attribute %s' % (tag, attr))
     if tag is None:
         if isinstance(base, Top) and base.ignorance:
             interp.imprecise('attribute %s of unmodelled value' % attr)
@@ -990,6 +1035,29 @@ def call_builtin(interp, name, args, kwargs):
             interp.imprecise('zip over a run of unknown length')
             return GenV([Splice('zip')])
         return GenV([ListV(list(t), 'tuple') for t in zip(*lists)])
+    if name == 'map' and len(args) >= 2:
+        lists = [iter_items(interp, a) for a in args[1:]]
+        if any(any(isinstance(i, Splice) for i in l) for l in lists):
+            if len(lists) == 1:
+                # element-wise image of a run of unknown length: the same run, primed (as a comprehension over it)
+                out = []
+                for it_ in lists[0]:
+                    out.append(Splice(it_.name + "'") if isinstance(it_, Splice) else interp.call(args[0], [it_]))
+                interp.imprecise('map over a run of unknown length')
+                return GenV(out)
+            raise Unmodelled('map over several runs of unknown length')
+        return GenV([interp.call(args[0], list(t)) for t in zip(*lists)])
+    if name == 'filter' and len(args) == 2:
+        items = iter_items(interp, args[1])
+        if any(isinstance(i, Splice) for i in items):
+            raise Unmodelled('filter over a run of unknown length')
+        out = []
+        for it_ in items:
+            keep = interp.truth(it_, 'filter: %r' % (it_,)) if (isinstance(args[0], Const) and args[0].value is None) else \
+                interp.truth(interp.call(args[0], [it_]), 'filter: %r' % (it_,))
+            if keep:
+                out.append(it_)
+        return GenV(out)
     if name == 'enumerate':
         items = iter_items(interp, args[0])
         sv = args[1] if len(args) > 1 else kwargs.get('start', Const(0))
@@ -1118,6 +1186,15 @@ def call_builtin(interp, name, args, kwargs):
             return args[0]
         interp.extern['hx:identity'] = lambda it, a, kw: a[0]
         return Builtin('hx:identity')
+    if name == 'str.maketrans' and args and all(isinstance(a, Const) and isinstance(a.value, str) for a in args):
+        tbl = str.maketrans(*[a.value for a in args])
+        return DictV([[Const(kk), Const(vv)] for kk, vv in tbl.items()])
+    if name in ('functools.partial', 'partial') and args:
+        # a callable that prepends the frozen positional arguments and merges the frozen keywords
+        nm = 'hx:partial:%d' % len(interp.extern)
+        f0, a0, k0 = args[0], list(args[1:]), dict(kwargs)
+        interp.extern[nm] = lambda it, a, kw: it.call(f0, a0 + list(a), dict(k0, **kw))
+        return Builtin(nm)
     if name in ('functools.singledispatch', 'singledispatch') and len(args) == 1 and isinstance(args[0], Func):
         from .absint import DispatchV
         raw = Func(args[0].module, args[0].node, args[0].closure, args[0].name)
@@ -1389,6 +1466,14 @@ def call_method(interp, base, attr, args, kwargs, text=''):
             if args and isinstance(args[0], DictV):
                 for a, b in args[0].pairs:
                     base.store(a, b)
+            elif args:
+                # an iterable of (key, value) pairs
+                for it_ in iter_items(interp, args[0]):
+                    if isinstance(it_, Splice) or not (isinstance(it_, ListV) and not it_.has_splice() and len(it_.items) == 2):
+                        raise Unmodelled('dict.update over items of unknown shape')
+                    base.store(it_.items[0], it_.items[1])
+            for kk, vv in kwargs.items():
+                base.store(Const(kk), vv)
             return Const(None)
         raise Unmodelled('dict method %s' % attr)
     if isinstance(base, GenV):
@@ -1423,12 +1508,23 @@ def call_method(interp, base, attr, args, kwargs, text=''):
         raise Unmodelled('match method %s' % attr)
     tag = base.tag
     if tag == 'str':
-        if isinstance(base, Const) and all(isinstance(a, Const) for a in args) and not kwargs and attr in STR_TO_STR | STR_TO_BOOL | STR_TO_INT | set(['split', 'join']):
+        if attr == 'translate' and isinstance(base, Const) and len(args) == 1 and isinstance(args[0], DictV) and \
+                all(isinstance(a_, Const) and isinstance(b_, Const) for a_, b_ in args[0].pairs):
+            return Const(base.value.translate(dict((a_.value, b_.value) for a_, b_ in args[0].pairs)))
+        if isinstance(base, Const) and all(isinstance(a, Const) for a in args) and not kwargs and not attr.startswith('_') and \
+                callable(getattr(str, attr, None)) and attr not in ('format_map', 'maketrans', 'translate', 'encode'):
+            # every str method is a pure function of its (immutable) receiver and arguments: evaluate it
             try:
                 r = getattr(base.value, attr)(*[a.value for a in args])
-                if isinstance(r, list):
-                    return ListV([Const(x) for x in r])
+                if isinstance(r, (list, tuple)) and all(isinstance(x, (str, int, bool)) for x in r):
+                    return ListV([Const(x) for x in r], 'tuple' if isinstance(r, tuple) else 'list')
+                if not isinstance(r, (str, int, bool)):
+                    raise Unmodelled('str.%s result' % attr)
                 return Const(r)
+            except Unmodelled:
+                raise
+            except (ValueError, IndexError, KeyError) as e_:
+                raise Raised(Exc(type(e_).__name__))
             except Exception:
                 raise Raised(Exc('TypeError'))
         if attr == 'join':
@@ -1461,7 +1557,10 @@ def call_method(interp, base, attr, args, kwargs, text=''):
         if attr in ('weekday', 'isoweekday', 'toordinal'):
             return Atom(attr, [base], 'int')
         if attr in ('time', 'date', 'replace'):
-            return Atom(attr, [base] + list(args), 'datetime' if attr == 'replace' else attr)
+            return Atom(attr, [base] + list(args) + [Atom('kw:' + kk, [vv], None) for kk, vv in sorted(kwargs.items())],
+                        'datetime' if attr == 'replace' else attr)
+        if attr in ('astimezone',):
+            return Atom(attr, [base] + list(args), 'datetime')
         if attr in ('strftime', 'isoformat'):
             return Atom(attr, [base] + list(args), 'str')
         if attr == 'timestamp':
@@ -1558,7 +1657,13 @@ def list_method(interp, base, attr, args, kwargs):
     if attr in ('pop', 'popleft'):
         if not base.items:
             raise Raised(Exc('IndexError', 'pop from empty list'))
-        i = 0 if attr == 'popleft' else (args[0].value if args and isinstance(args[0], Const) else -1)
+        if args and not (isinstance(args[0], Const) and isinstance(args[0].value, int)):
+            raise Unmodelled('pop at an unknown position')
+        i = 0 if attr == 'popleft' else (args[0].value if args else -1)
+        if base.has_splice() and not (i in (0, -1) and not isinstance(base.items[i], Splice)):
+            raise Unmodelled('pop from a run of unknown length')
+        if not -len(base.items) <= i < len(base.items):
+            raise Raised(Exc('IndexError', 'pop index out of range'))
         it = base.items[i]
         if isinstance(it, Splice):
             raise Unmodelled('pop from a run of unknown length')
